@@ -395,6 +395,19 @@ def o_c17(cimp, ctx):
     return probs
 
 
+def ancestors_of(t, tasks):
+    """ids of the tasks t depends on, directly or indirectly, through products and `after`"""
+    byid = {x["id"]: x for x in tasks}
+    prod = {p: x["id"] for x in tasks for p in x["prods"]}
+    seen, todo = set(), [t["id"]]
+    while todo:
+        x = byid[todo.pop()]
+        for u in {prod[d] for d in x["deps"] if d in prod} | set(after_targets(x, tasks)):
+            if u not in seen:
+                seen.add(u); todo.append(u)
+    return seen
+
+
 def o_c02(cimp, ctx):
     probs = []
     tasks = ctx["op"]["tasks"]
@@ -423,7 +436,16 @@ def o_c02(cimp, ctx):
                 continue
             for p in t["prods"]:
                 if ideal.get(p) is not None and files.get(p) != ideal[p]:
-                    probs.append((f"after a successful build product f{p} of task {t['id']} holds {files.get(p)!r}, a from-scratch build would give {ideal[p]}", ()))
+                    # F6 (the statically declared sibling): a dependency left the task although its source did not
+                    # change, nothing else changed, the task is reported unchanged - and everything below it with it
+                    shrunk = set()
+                    if ctx["prev"]:
+                        old = {x["id"]: x for x in ctx["prev"][-1][0]["tasks"]}
+                        shrunk = {x["id"] for x in tasks if x.get("opt") and x["id"] in old and set(old[x["id"]]["deps"]) - set(x["deps"])
+                                  and rep.get(x["id"]) == O["SKIP_UNCHANGED"]}
+                    below = shrunk and (t["id"] in shrunk or any(u in shrunk for u in ancestors_of(t, tasks)))
+                    probs.append((f"after a successful build product f{p} of task {t['id']} holds {files.get(p)!r}, a from-scratch build would give {ideal[p]}",
+                                  ("F6",) if below else ()))
     # never unchanged while a neighbour differs from its recorded row
     prev_db = ctx["prev"][-1][1]["db"] if ctx["prev"] else set()
     rows = {(a, b): h for a, b, h in prev_db}
